@@ -1,8 +1,36 @@
-//! Kani harnesses (engine K).  Public items of libhaystack only; no hooks.
+//! Kani harnesses (engine K).  Public items of libhaystack only; no hooks.  Bodies live in shared.rs so the
+//! native replay binary can re-run a counterexample with the concrete inputs Kani found.
 #![allow(dead_code)]
+pub mod shared;
+
 #[cfg(kani)]
-mod common;
-#[cfg(kani)]
-mod c12;
-#[cfg(kani)]
-mod probe;
+mod k {
+    use crate::shared::{bodies, Chk, Src};
+    struct KSrc;
+    impl Src for KSrc {
+        fn u8(&mut self) -> u8 { kani::any() }
+        fn u64(&mut self) -> u64 { kani::any() }
+        fn i8(&mut self) -> i8 { kani::any() }
+    }
+    struct KChk;
+    impl Chk for KChk {
+        fn assume(&mut self, c: bool) { kani::assume(c) }
+        fn check(&mut self, _c: bool, _msg: &'static str) {}
+        fn cover(&mut self, _c: bool, _msg: &'static str) {}
+    }
+    fn fmt_stub(_a: std::fmt::Arguments<'_>) -> String { String::new() }
+
+    macro_rules! harness {
+        ($name:ident, $unwind:expr) => {
+            #[kani::proof]
+            #[kani::unwind($unwind)]
+            #[kani::stub(std::fmt::format, fmt_stub)]
+            fn $name() { bodies::$name(&mut KSrc, &mut KChk) }
+        };
+    }
+    harness!(coord_eq_hash, 10);
+    harness!(coord_ord, 10);
+    harness!(coord_transitive, 10);
+    harness!(kind_codes, 10);
+    harness!(dims_add_sub, 10);
+}
